@@ -10,6 +10,8 @@ from vlint.util import must_of, sites
 from . import common, panics
 from .c06 import policy_sets
 
+ctx_single_iff = [False]
+
 EXPLANATION = (
     "Decides: (V1) validation-before-use on every path to a handler call of the backend server: attached-file "
     "policy accepted before the body is read, size check and the body's validator passed (C20 decides that the "
@@ -86,14 +88,22 @@ def v1(fb, chk, tag=""):
     summ = Summariser(fb, no_inline=lambda g: True)
     outs, sym = summ.paths(tsf)
     good = True
+    iff = True
     nsome = 0
+    tp = [n for n in tsf.arg_names() if n][0]
     for o in outs:
-        if o.ret is not None and ret_okness(o.ret) is True:
+        if o.ret is None:
+            continue
+        cls = common.file_classes(fb, sym, o.atoms, tp, single=())
+        if ret_okness(o.ret) is True:
             nsome += 1
-            if not any(a[0] == "cmp" and a[1] == "Eq" and const_eval(fb, sym, a[3]) == 1 and "len(" in show(a[2]) for a in o.atoms):
+            if not cls <= {1}:
                 good = False
+        elif 1 in cls:
+            iff = False
     chk.check(good and nsome >= 1, "V1", tag + "take_single_file", "Some only when exactly one file was received",
               "take_single_file can return a file when the count is not exactly one", tsf.loc())
+    ctx_single_iff[0] = good and iff and nsome >= 1
     # per handler call site
     from .c02 import server_handler_calls
     _hr, mh, calls = server_handler_calls(fb)
@@ -170,9 +180,18 @@ def v1(fb, chk, tag=""):
                     valid = True
                 if a[0] == "cmp" and a[1] in ("Ge",) and "len(buf)" in show(a[2]):
                     pass
-            if bit is None or filep is None or bit == filep:
+            if bit is None or (filep is not None and bit == filep):
                 probs.add("Ok path with bit8=%s and file present=%s" % (bit, filep))
-        chk.check(not probs and nok == 2, "V1", tag + "vringfd:file-iff-bit8-clear", "2 Ok paths: (bit 8 clear, one file) and (bit 8 set, no file)",
+            # the count of received files on this path: exactly one with bit 8 clear, none at all with bit 8 set
+            pname = [n for n in f.arg_names() if n and "file" in n]
+            cls = common.file_classes(fb, sym, o.atoms, pname[0] if pname else "files")
+            if ctx_single_iff[0] and any(a[0] == "notok" and a[1][0] == "call" and a[1][1] == "take_single_file" for a in o.atoms):
+                cls.discard(1)  # take_single_file is None only when the count is not one (decided above)
+            want = {"none", 0} if bit else {1}
+            if bit is not None and not cls <= want:
+                extra = sorted(str(c) if c != 2 else "2+" for c in cls - want)
+                probs.add("Ok path with bit8 %s is reachable with %s attached file(s)" % ("set" if bit else "clear", "/".join(extra)))
+        chk.check(not probs and nok >= 2, "V1", tag + "vringfd:file-iff-bit8-clear", "Ok paths: (bit 8 clear, exactly one file) and (bit 8 set, no file at all)",
                   "vring-fd helper: %s" % "; ".join(sorted(probs)), f.loc())
     else:
         chk.anchor_missing("V1", tag + "vring-fd helper")
